@@ -79,7 +79,7 @@ CROP_FIELDS = ["Name", "CCx", "CC0", "Zmin", "Zmax", "HI0", "dHI0", "Tbase", "Tu
                "YldWC", "fCO2", "CalendarType", "Maturity", "MaturityCD", "HIstartCD", "HIstart",
                "CropType", "Emergence", "Senescence", "CGC", "CDC", "planting_date", "harvest_date",
                "Aer", "LagAer", "ETadj", "PlantMethod", "SxTop", "SxBot", "Kcb", "dHI_pre", "a_HI", "b_HI",
-               "Canopy10Pct", "MaxCanopy"]
+               "Canopy10Pct", "MaxCanopy", "bsted", "bface", "fsink"]
 
 
 def _plain(v):
@@ -114,6 +114,15 @@ def static_context(model):
         "weather": np.array(model._weather[:, :4], dtype=float).copy(),
         "co2_ref": float(ps.CO2.ref_concentration),
     }
+    try:
+        # the user's CO2 description as the model holds it after initialisation (the yearly table is the user's
+        # own; a constant concentration given as 0 has been resolved to the first simulated year's value)
+        co = ps.CO2
+        ctx["co2"] = dict(constant=bool(co.constant_conc is True), current=float(co.current_concentration),
+                          years=[float(y) for y in co.co2_data.year], ppm=[float(v) for v in co.co2_data.ppm],
+                          ref=float(co.ref_concentration))
+    except Exception:  # noqa: BLE001
+        ctx["co2"] = None
     return ctx
 
 
@@ -197,6 +206,8 @@ class Collector:
             led["irr"] = float(r[3]); led["depletion"] = float(r[0]); led["taw"] = float(r[1])
             led["irr_in"] = dict(method=int(b[0]), growth_stage=float(b[8]), irr_cum=float(b[9]), dap=int(b[14]),
                                  gs=bool(b[19]), max_irr=float(b[3]), max_season=float(b[7]))
+            led["irr_state"] = dict(epot=float(b[10]), tpot=float(b[11]), zroot=float(b[12]), th=np.array(b[13], dtype=float).copy(),
+                                    rain=float(b[20]), runoff=float(b[21]))
         elif name == "infiltration":
             led["th_after_inf"] = np.array(r[0], dtype=float).copy(); led["pond_after_inf"] = float(r[1])
             led["dp_total"] = float(r[2]); led["runoff_tot"] = float(r[3]); led["infl_rep"] = float(r[4])
@@ -285,7 +296,7 @@ def collect(scenarios, encoders=None, with_lines=True):
 
 
 def n_scenarios(tier):
-    return 38 if tier == "quick" else 160
+    return 42 if tier == "quick" else 160
 
 
 def get_traces(seed, tier, verbose=True):
